@@ -453,7 +453,9 @@ def instrument(rec: Rec, poison: dict) -> Iterator[None]:
         did = str(kw["daemon"].handler.id)
         # whose daemon: the stopper knows the object only through the daemon's logger
         oname = ((getattr(kw["daemon"].logger, "extra", None) or {}).get("k8s_ref") or {}).get("name")
-        rec.add("stopperBegin", did, str(kw["reason"]), oname)
+        rec.stoppers = getattr(rec, "stoppers", 0) + 1
+        sid = rec.stoppers               # (several stoppers of one daemon can overlap: pausing stoppers are spawned every second)
+        rec.add("stopperBegin", did, str(kw["reason"]), oname, sid)
         how = "ended"
         try:
             return await orig_stop_daemon(**kw)
@@ -468,7 +470,8 @@ def instrument(rec: Rec, poison: dict) -> Iterator[None]:
             # ... and HOW the stopper came to its end: on its own (after its whole procedure) or cut short; was the daemon's task
             # ever asked to cancel (`Task.cancelling()`: requests not taken back)?
             dtask = kw["daemon"].task
-            rec.add("stopperEnd", did, dtask.done(), oname, how, int(dtask.cancelling()) if hasattr(dtask, "cancelling") else None)
+            rec.add("stopperEnd", did, dtask.done(), oname, how, int(dtask.cancelling()) if hasattr(dtask, "cancelling") else None,
+                    sid, str(kw["reason"]))
 
     patch(daemons, "stop_daemon", d_stop_daemon)
 
@@ -707,9 +710,18 @@ def run_history(sc: dict, wall_limit: float = 30.0) -> dict:
                 return resp
             return await o_request(self, method, url, *a, **k)
 
+        # environment: the API server is slow to ANSWER the watch requests of the served resource (`watch_response_latency`
+        # seconds before the headers): the window in which `api.stream` lets the pause-stopper cancel the pending request
+        watch_lat = float(sc.get("watch_response_latency") or 0.0)
+
+        async def slow_watch_request(self: Any, method: str, url: str, *a: Any, **k: Any) -> Any:
+            if watch_lat and method.upper() == "GET" and kex.plural in url and "watch" in str(k.get("params") or url) and not self.dead:
+                await asyncio.sleep(watch_lat)
+            return await (slow_request if resp_lat else o_request)(self, method, url, *a, **k)
+
         with contextlib.ExitStack() as stack:
-            if resp_lat:
-                fakeapi.FakeSession.request = slow_request  # type: ignore[method-assign]
+            if resp_lat or watch_lat:
+                fakeapi.FakeSession.request = slow_watch_request if watch_lat else slow_request  # type: ignore[method-assign]
                 stack.callback(lambda: setattr(fakeapi.FakeSession, "request", o_request))
             stack.enter_context(instrument(rec, poison))
             op = runner.Operator(c, sim.registry, sim.settings(), identity="op", **opkw)
@@ -758,6 +770,19 @@ def run_history(sc: dict, wall_limit: float = 30.0) -> dict:
                     op.task.cancel()
                 elif kind == "edit":
                     c.edit(kex, "ns", args[0], {"spec": {"x": args[1]}})
+                elif kind == "rival":            # another operator appears in the peering object (args: priority, lifetime):
+                    # with a higher priority it PAUSES this one (streams disconnected, daemons stopped by pausing stoppers)
+                    stamp = (simloop.EPOCH + __import__("datetime").timedelta(seconds=simloop.WALL.now_s())).isoformat()
+                    c.edit(fakeapi.CLUSTER_PEERING, None, "default",
+                           {"status": {"rival": {"priority": int(args[0]), "lifetime": int(args[1]), "lastseen": stamp}}})
+                elif kind == "yields":           # let the loop run `n` iterations (no time passes): the next op lands n iterations later
+                    for _ in range(int(args[0])):
+                        await asyncio.sleep(0)
+                elif kind == "rival_gone":
+                    c.edit(fakeapi.CLUSTER_PEERING, None, "default", {"status": {"rival": None}})
+                elif kind == "delete":           # a deletion request: the object is marked (finalizers hold it), or goes at once
+                    if c.get(kex, "ns", args[0]) is not None:
+                        c.delete(kex, "ns", args[0])
                 elif kind == "edit2":            # an object of the second kind
                     assert kex2 is not None
                     c.edit(kex2, "ns", args[0], {"spec": {"x": args[1]}})
@@ -767,6 +792,9 @@ def run_history(sc: dict, wall_limit: float = 30.0) -> dict:
                 elif kind == "watch_error":
                     res = {"kex": kex, "crd": fakeapi.CRDS, "peering": fakeapi.CLUSTER_PEERING, "ns": fakeapi.NAMESPACES}[args[0]]
                     c.break_watches(res, "error")
+                elif kind == "watch_eof":        # the running stream of one resource ends (server timeout): the watcher re-lists and re-watches
+                    res = {"kex": kex, "crd": fakeapi.CRDS, "peering": fakeapi.CLUSTER_PEERING, "ns": fakeapi.NAMESPACES}[args[0]]
+                    c.break_watches(res, "eof")
                 elif kind == "watch_http":
                     # the LIST/WATCH requests of one resource are answered with an HTTP error from now on, for good (403: the
                     # permissions were taken away; 5xx: beyond the retries of the client); the running stream is cut, the re-list
